@@ -1,6 +1,7 @@
 import EqsigVerif.Prelude.Wire
 import EqsigVerif.Model.Switched
-/-! driver handlers for `Model/Switched.lean` -/
+import EqsigVerif.Model.SwitchedOut
+/-! driver handlers for `Model/Switched.lean` / `Model/SwitchedOut.lean` (the repaired `get_switched_peak_array_indices`, finding F12-3) -/
 namespace EqsigVerif.Handlers.Switched
 open EqsigVerif EqsigVerif.Wire EqsigVerif.Model.Switched
 
@@ -13,14 +14,22 @@ def zcH : Handler
     pure (ofExcept (fun l => [outNats l]) (zeroCrossingsE v k tol))
   | _ => throw "zc: expected 3 args"
 
-/-- `switched|<tol>|<v…>` -/
+/-- `switched|<tol>|<v…>`: what the public function returns (`switchedPeaksOutE`: the loop, then `np.unique`) -/
 def switchedH : Handler
   | [tol, v] => do
     let tol ← rat1 tol
     let v ← rats v
-    pure (ofExcept (fun l => [outNats l]) (switchedPeaksE v tol))
+    pure (ofExcept (fun l => [outNats l]) (switchedPeaksOutE v tol))
   | _ => throw "switched: expected 2 args"
 
-def handlers : List (String × Handler) := [("zc", zcH), ("switched", switchedH)]
+/-- `switched_loop|<tol>|<v…>`: the loop's own result (the local `switched_peak_indices` before `np.unique`; `Model.Switched.switchedPeaksE`) -/
+def switchedLoopH : Handler
+  | [tol, v] => do
+    let tol ← rat1 tol
+    let v ← rats v
+    pure (ofExcept (fun l => [outNats l]) (switchedPeaksE v tol))
+  | _ => throw "switched_loop: expected 2 args"
+
+def handlers : List (String × Handler) := [("zc", zcH), ("switched", switchedH), ("switched_loop", switchedLoopH)]
 
 end EqsigVerif.Handlers.Switched
